@@ -2405,8 +2405,9 @@ def kernel32_GetLocaleInfo(jitter, funcname, set_str):
     if args.localeid == 0x40c:
         if args.lctype == 0x3:
             buf = "ENGLISH"
-            buf = buf[:args.cchdata - 1]
-            set_str(args.lplcdata, buf)
+            if args.cchdata > 0:
+                buf = buf[:args.cchdata - 1]
+                set_str(args.lplcdata, buf)
             ret = len(buf)
     else:
         raise ValueError('unimpl localeid')
